@@ -38,9 +38,19 @@ class EngineError(Exception):
     pass
 
 
-def new_world(P, prime, contracts, modules, extra=None):
+def new_world(P, prime, contracts, modules, extra=None, contract=None):
     w = interp.World(contracts=contracts)
     g = gh.Ghost(w, prime)
+    if contract is not None and getattr(contract, "layer", "gadget") != "gadget":
+        # backend / process layer: the real modules are interpreted, no ghost backend is installed
+        contract.world_setup(w)
+        w.use_contracts = False
+        for m in modules:
+            w.import_module(m)
+        w.use_contracts = True
+        c = ct.Ctx(w, g)
+        w.ctx = c
+        return w, g, c
     w.module_overrides["pysnark.snarkjsbackend"] = gh.make_backend_module(w, g)
     w.import_module("pysnark.snarkjsbackend")
     w.use_contracts = False          # module initialisation runs the real bodies
@@ -168,7 +178,7 @@ def run_config(contract, cfg, facets="VCSTRN", prime=None, tier="quick", max_pat
         P = Path(prefix)
         set_path(P)
         try:
-            w, g, c = new_world(P, prime, ct.REGISTRY, contract.modules)
+            w, g, c = new_world(P, prime, ct.REGISTRY, contract.modules, contract=contract)
             c.cfg = cfg
             fn, args, kwargs = contract.setup(c, cfg)
             for f in contract.pre(c, *args, **kwargs):
@@ -199,7 +209,7 @@ def run_config(contract, cfg, facets="VCSTRN", prime=None, tier="quick", max_pat
                 if isinstance(e, MemoryError):
                     raise
                 outcome = ("exc", e)
-            if not w.target_entered:
+            if not w.target_entered and not contract.probe:
                 res["engine_errors"].append("target function %s was never entered by setup()" % contract.name)
             worklist.extend(P.pending)
             res["paths"] += 1
@@ -374,6 +384,10 @@ class _entry_state:
         self.c = c
 
     def __enter__(self):
+        self.skip = "pysnark.runtime" not in self.c.w.modules
+        if self.skip:
+            self.c.now = dict(ie=False, guard=None, ONE=None)
+            return
         rt = self.c.rt
         self.now = (rt._ignore_errors, rt.guard, rt.LinComb.ONE, rt.bitlength)
         e = self.c.entry
@@ -381,6 +395,8 @@ class _entry_state:
         self.c.now = dict(ie=self.now[0], guard=self.now[1], ONE=self.now[2])
 
     def __exit__(self, *a):
+        if self.skip:
+            return
         rt = self.c.rt
         rt._ignore_errors, rt.guard, rt.LinComb.ONE, rt.bitlength = self.now
 
